@@ -129,7 +129,8 @@ def plan(tier, seed):
             if tier == 'quick' and n in (0, 1):
                 continue
             pre = ' and '.join(f'c{i} < 128' for i in range(n)) if nm == 'meta' else ''
-            obs.append(Ob(name=f'{nm}_L{n}', factory='vt.equiv:make_equiv', spec={'program': nm, 'gtext': FAMILY[nm], 'variants': ['json', 'pickle', 'modelsrc'], 'n': n},
+            extra = {'known': {'json': 'F6'}, 'prop': 'C14'} if nm == 'constants_text' else {}
+            obs.append(Ob(name=f'{nm}_L{n}', factory='vt.equiv:make_equiv', spec={'program': nm, 'gtext': FAMILY[nm], 'variants': ['json', 'pickle', 'modelsrc'], 'n': n, **extra},
                           params=[(f'c{i}', 0, UNI) for i in range(n)], budget={0: 40, 1: 40, 2: 150, 3: 700, 4: 3000}[n], group='reload', extra_pre=pre))
     for n in ((1, 2, 3) if tier == 'quick' else (1, 2, 3, 4)):
         obs.append(Ob(name=f'S_sniff_len{n}', factory='vt.props.c14:make_sniff', spec={'n': n, 'program': 'string-sniffing'}, params=[(f'c{i}', 0, UNI) for i in range(n)],
